@@ -28,8 +28,17 @@ def pipes(r):
         if k == 'mapnum':
             # a map iterator hands out a fresh [key, value] list per step that nothing but the iterator refers to
             # (number keys: the order of the walk is a function of the keys alone)
-            return "{" + ", ".join("%d: %s" % (key, r.choice(["'mv%d'" % key, "['in${%d}']" % key, "%d" % key]))
+            walk = "{" + ", ".join("%d: %s" % (key, r.choice(["'mv%d'" % key, "['in${%d}']" % key, "%d" % key]))
                                    for key in r.sample(range(12), r.randint(0, 7))) + "}.iter()"
+            # zipped, the entry of this step is held by the iterator alone while the other side advances and the pair is made
+            form = r.choice(["plain", "zip_left", "zip_right", "zip_self"])
+            if form == "zip_left":
+                return "%s.zip(%s)" % (walk, src())
+            if form == "zip_right":
+                return "%s.zip(%s)" % (src(), walk)
+            if form == "zip_self":
+                return "%s.zip(%s.map(|kv| [kv, 'w${kv[0]}']))" % (walk, walk)
+            return walk
         if k == 'nums':
             return "[" + ", ".join(str(r.randint(0, 9)) for _ in range(r.randint(0, 6))) + "].iter()"
         if k == 'strs':
